@@ -19,15 +19,13 @@ func FuzzC11(f *testing.F) {
 	f.Add("name", "cmd arg", "stdout", "line1\nline2", "a/b.txt", int64(3))
 	f.Add("", "\"quoted\\", "k\x00", "  ", "é/☺", int64(-1))
 	f.Add("a\tb", "\x7f", "", "\\u0000", "p\"q", int64(1<<52))
+	f.Add("n", "c", "k", "v", "p", int64(9007199254740993))
 	f.Fuzz(func(t *testing.T, name, cmd, bpKey, bpVal, path string, n int64) {
 		hx.Quiet()
 		for _, s := range []string{name, cmd, bpKey, bpVal, path} {
 			if !utf8.ValidString(s) {
 				t.Skip()
 			}
-		}
-		if n > 1<<53-1 || n < -(1<<53-1) {
-			t.Skip()
 		}
 		link := hx.MLink{Type: "link", Name: name, Materials: hx.MArtifacts{path: {"sha256": "ab"}}, Products: hx.MArtifacts{},
 			ByProducts:  hx.MObj{bpKey: hx.MVal{K: "s", S: bpVal}, "n": hx.MVal{K: "i", I: n}, "l": hx.MVal{K: "l", L: []hx.MVal{{K: "s", S: cmd}, {K: "n"}, {K: "b", B: true}}}},
@@ -58,6 +56,7 @@ func FuzzC12(f *testing.F) {
 		f.Add(c15ValidFile(hx.MMeta{Layout: &ly}, w))
 	}
 	dir, _ := os.MkdirTemp("", "c12fuzz-")
+	f.Cleanup(func() { os.RemoveAll(dir) })
 	f.Fuzz(func(t *testing.T, data []byte) {
 		hx.Quiet()
 		p := filepath.Join(dir, "in.json")
